@@ -105,6 +105,12 @@ func (c *Client) validateVirtualChannelSettlementProposal(
 		return errors.New("invalid parameters")
 	}
 
+	// Validate dimensions: one signature and one balance column per participant.
+	numParts := len(prop.Final.Params.Parts)
+	if len(prop.Final.Sigs) != numParts || prop.Final.State.NumParts() != numParts {
+		return errors.New("signatures or balances do not match the number of participants")
+	}
+
 	// Validate signatures.
 	for i, sig := range prop.Final.Sigs {
 		for _, p := range prop.Final.Params.Parts[i] {
@@ -138,6 +144,16 @@ func (c *Client) validateVirtualChannelSettlementProposal(
 	_, containedAfter := prop.State.SubAlloc(prop.Final.Params.ID())
 	if containedAfter {
 		return errors.New("virtual channel must not be de-allocated after update")
+	}
+
+	// Assert that the index map fits the dimensions it is used with.
+	if len(subAlloc.IndexMap) != prop.Final.State.NumParts() {
+		return errors.New("index map: invalid length")
+	}
+	for _, idx := range subAlloc.IndexMap {
+		if int(idx) >= parent.state().NumParts() {
+			return errors.New("index map: invalid entry")
+		}
 	}
 
 	// Assert correct balances
